@@ -8,7 +8,10 @@ whose hypotheses are tied to /repo on every run by
      Gen/MapWalks.v) and the vm_compute obligations of State/GenObligations.v, and
   C  monitors on the real implementation (harness/cmd/histdrive): histories on one reused
      spirv.Backend, permutations of the five back ends on one module, deep digest of the
-     module before/after every call, fresh-process reruns, concurrent runs under -race.
+     module before/after every call, fresh-process reruns, concurrent runs under -race;
+     on modules WITH override declarations additionally histories of the operations that take pipeline
+     constants (msl/glsl Compile with Options.PipelineConstants, ir.CloneModuleForOverrides + ir.ProcessOverrides
+     followed by every back end) with module / Options / constants-map digests around every call.
 Partial: the hypotheses are not proved of Go code; map-iteration randomness and data races
 are run-time behaviour that only the monitors observe."""
 import json
@@ -16,6 +19,7 @@ import os
 import re
 import time
 
+import c12ovr
 import gen
 import nagarun
 import vcheck
@@ -24,7 +28,7 @@ LEVEL = "proof"
 TARGETS = ["spv", "spvd", "hlsl", "msl", "glsl", "dxil"]
 NODXIL = ["spv", "spvd", "hlsl", "msl", "glsl"]
 MODEL_FILES = ["State/Reset.v", "State/History.v", "State/Schedule.v", "State/MapOrder.v", "State/Tie.v",
-               "State/GenObligations.v", "State/Instance.v"]
+               "State/GenObligations.v", "State/Instance.v", "State/CloneFrame.v", "State/CloneObligations.v"]
 STRESS_DIR = os.path.join(vcheck.VERIF, "state", "c12_stress")
 # (target, program) pairs whose output is known / was observed on this run to vary from call to call: every other monitor
 # presupposes determinism, so its alarms on such a pair are consequences and are reported under the same key
@@ -119,6 +123,14 @@ def report_r(ctx, rep):
                            "(obligation class_c_sites_reviewed)" % (s, w.get("line"), w.get("why")),
                            found_input=False, key="mapwalk:" + s, broken="State/GenObligations.v class_c_sites_reviewed",
                            files={"site.json": json.dumps(w, indent=1)})
+    for tag, fn, op in (("msl", "msl applyPipelineConstants", "msl+pc"), ("ir", "ir.CloneModuleForOverrides", "po")):
+        for region in rep.get("cloneshare:" + tag, []):
+            n += ctx.violation(
+                "%s does not re-allocate the region %s of the module although the override-resolution pass that follows writes it "
+                "(state/clone_writes.txt): the caller's module is written by an operation that takes pipeline constants "
+                "(obligation clone_covers_writes_%s; hypothesis of c12_clone_frame)" % (fn, region, tag),
+                found_input=False, key="clone-shares-written:%s:%s" % (op, region),
+                broken="State/CloneObligations.v clone_covers_writes_%s" % tag, files={"region.txt": "%s: %s\n" % (fn, region)})
     fs = rep.get("first_stmt", [""])
     if fs and fs[0] != "b.Reset()":
         n += ctx.violation("Backend.Compile no longer begins with b.Reset() (first statement: %r): compile = body . reset does not hold" % fs[0],
@@ -385,6 +397,145 @@ def monitor_reruns(ctx, tool, progs, processes, repeat, stats):
     return mutated
 
 
+
+# ------------------------------------------------------------------ (v) operations that take pipeline constants
+
+def pconst_programs(ctx, progs):
+    """programs with override declarations: corpus + state/c12_stress + generated"""
+    out = [(n, s) for n, s in progs if c12ovr.overrides_of(s)]
+    rng = ctx.rng.fork("ovrgen")
+    for i in range(ctx.scale(16, 300)):
+        out.append(c12ovr.gen_program(rng.fork("p%d" % i), i))
+    return out
+
+
+def pconst_fails(tool, src, label, repeat=2):
+    """predicate for ddmin: the LAST operation of the candidate history gives an output that differs from its
+    fresh-module output although the module was intact before it"""
+    def fails(cand):
+        rc, rr, se = run1(tool, "pconst", {"id": 0, "src": src, "data": {"ops": cand, "repeat": repeat, "heal": True}})
+        last = len(cand) - 1
+        return bool(rr) and any(x.get("step") == last and x["kind"] == "output-differs" and x["label"] == label and x.get("module_intact_before", True)
+                                for x in rr.get("bad") or [])
+    return fails
+
+
+def monitor_pconst(ctx, tool, oprogs, n_random, max_len, stats):
+    rng = ctx.rng.fork("pconst")
+    jobs, meta, systematic = [], {}, set()
+    for pi, (name, src) in enumerate(oprogs):
+        ovs = c12ovr.overrides_of(src)
+        hs = [c12ovr.systematic_history(ovs)]
+        for k in range(n_random):
+            hs.append(c12ovr.random_history(ovs, rng, 4 + rng.below(max_len - 3)))
+        for hi, ops in enumerate(hs):
+            jid = len(jobs)
+            if hi == 0:
+                systematic.add(jid)
+            # every reference is computed again after the history, so one run up front suffices for the random histories
+            jobs.append({"id": jid, "src": src, "data": {"ops": ops, "repeat": 2 if hi == 0 else 1, "heal": True}})
+            meta[jid] = (name, src, ops)
+    # two sets of fresh processes (fresh hash seeds): (d) across processes as well as in process
+    runs = [nagarun.parallel_batches(tool, "pconst", jobs, workers=vcheck.NCPU, per_job_timeout=90.0, chunk=3)]
+    runs.append(nagarun.parallel_batches(tool, "pconst", [j for j in jobs if j["id"] in systematic], workers=vcheck.NCPU, per_job_timeout=90.0, chunk=2))
+    labels_ok = {}
+    nontrivial = set()
+    for jid, (name, src, ops) in meta.items():
+        rs = [r.get(jid) or {} for r in runs]
+        jobfile = json.dumps({"id": 0, "src": src, "data": jobs[jid]["data"]})
+        if any("crash" in r or "panic" in r for r in rs):
+            b = [r for r in rs if "crash" in r or "panic" in r][0]
+            ctx.violation("a history of pipeline-constant operations on one module of %s crashed the process: %s" % (name, b.get("crash") or str(b.get("panic"))[:300]),
+                          files={"job.json": jobfile, "mode.txt": "pconst", "program.wgsl": src}, key="pconst-crash:" + name)
+            continue
+        if any("frontend" in r for r in rs):
+            stats["pconst_rejected_programs"] = stats.get("pconst_rejected_programs", 0) + 1
+            continue
+        if any(r.get("lower_unstable") for r in rs):
+            ctx.violation("lowering %s twice gave different modules" % name, files={"program.wgsl": src}, key="nondeterministic:lowering:" + name)
+            continue
+        r = rs[0]
+        steps = r.get("steps") or []
+        stats["pconst_histories"] += 1
+        stats["pconst_calls"] += len(steps)
+        good = [s for s in steps if "ERR" not in s["out"] and "PANIC" not in s["out"]]
+        for s_ in good:
+            labels_ok[s_["label"]] = labels_ok.get(s_["label"], 0) + 1
+        if len({s_["label"] for s_ in good if "+pc" in s_["label"] or s_["label"].startswith("po")}) >= 2:
+            nontrivial.add((name, jid))
+        if len([x for x in ctx.cov["samples"] if x.get("kind", "").startswith("pipeline-constant")]) < 1 and steps:
+            ctx.sample({"kind": "pipeline-constant history on one module", "program": name, "ops": [c12ovr.op_text(o) for o in ops[:8]],
+                        "each_output_equals_fresh_module_output": not [b for b in r.get("bad") or [] if b["kind"] == "output-differs"],
+                        "module_mutated_by": sorted({b["label"] for b in r.get("bad") or [] if b["kind"] == "module-mutated"})})
+        # (d) across processes
+        o0 = [(s_["label"], s_.get("pc"), s_["out"]) for s_ in steps]
+        o1 = [(s_["label"], s_.get("pc"), s_["out"]) for s_ in rs[1].get("steps") or []]
+        if o1 and o0 != o1 and len(o0) == len(o1):
+            for a, b in zip(o0, o1):
+                if a != b:
+                    UNSTABLE.add((a[0], name))
+                    ctx.violation("operation %s with constants %s on %s gives different output in different processes" % (a[0], a[1], name),
+                                  files={"job.json": jobfile, "mode.txt": "pconst", "program.wgsl": src}, key="nondeterministic:%s:%s" % (a[0], name))
+        seen_here = set()
+        for b in (r.get("bad") or []) + [x for x in rs[1].get("bad") or [] if x["kind"] in ("unstable", "process-state")]:
+            lab = b.get("label", "?")
+            op = ops[b["step"]] if "step" in b and b["step"] < len(ops) else None
+            optxt = c12ovr.op_text(op) if op else lab
+            if b["kind"] == "unstable":
+                UNSTABLE.add((lab, name))
+                ctx.violation("operation %s on a freshly lowered module of %s gives different output from call to call in one process" % (b.get("op"), name),
+                              files={"job.json": jobfile, "mode.txt": "pconst", "program.wgsl": src}, key="nondeterministic:%s:%s" % (lab, name))
+            elif b["kind"] == "process-state":
+                ctx.violation("operation %s on a freshly lowered module of %s gives another output after the history than before it: the process keeps state "
+                              "between compilations (package-level variable / cache) that a fresh module and fresh options do not reset" % (b.get("op"), name),
+                              files={"job.json": jobfile, "mode.txt": "pconst", "program.wgsl": src}, key="process-state:%s" % lab)
+            elif b["kind"] == "module-mutated":
+                # one report per (operation, place written); plain back ends keep the key of monitor (ii)
+                for cls in b.get("classes") or ["?"]:
+                    key = "module-mutated:%s" % lab if "+" not in lab and not lab.startswith(("po", "clone")) else "module-mutated:%s:%s" % (lab, cls)
+                    if (key, jid) in seen_here:
+                        continue
+                    seen_here.add((key, jid))
+                    stats["pconst_module_mutations"][key] = stats["pconst_module_mutations"].get(key, 0) + 1
+                    one = [op] if op else ops[:b.get("step", 0) + 1]
+                    ctx.violation(
+                        "%s altered the caller's module (%s; written: %s): %s; plain back ends whose output changes when the altered module "
+                        "is compiled afterwards: %s" % (optxt, name, cls, ((b.get("class_paths") or {}).get(cls) or b.get("paths") or [])[:4], b.get("outputs_changed_afterwards")),
+                        files={"job.json": json.dumps({"id": 0, "src": src, "data": {"ops": one + [c12ovr.op_plain(t) for t in c12ovr.BACKENDS],
+                                                                                      "repeat": 2, "heal": False}}),
+                               "mode.txt": "pconst", "program.wgsl": src, "diff.txt": "\n".join(b.get("paths") or []) + "\n"}, key=key)
+            elif b["kind"] in ("options-mutated", "constants-mutated"):
+                ctx.violation("%s altered the %s it was given (%s)" % (optxt, "Options value (PipelineConstants map included)" if b["kind"] == "options-mutated"
+                                                                     else "constants map", name),
+                              files={"job.json": jobfile, "mode.txt": "pconst", "program.wgsl": src}, key="%s:%s" % (b["kind"], lab))
+            elif b["kind"] == "processed-module-mutated":
+                ctx.violation("back end %s altered the (override-processed) module it was given (%s)" % (lab, name),
+                              files={"job.json": jobfile, "mode.txt": "pconst", "program.wgsl": src}, key="module-mutated:" + lab)
+            elif b["kind"] == "panic":
+                ctx.violation("ir.CloneModuleForOverrides panicked on %s" % name, files={"program.wgsl": src}, key="pconst-crash:clone")
+            elif b["kind"] == "output-differs":
+                if not b.get("module_intact_before", True):
+                    continue            # consequence of a module mutation reported above (the module is replaced after one)
+                if nondet(ctx, lab, name, "%s after earlier operations on one module: output differs from the fresh-module output" % optxt):
+                    continue
+                stats["pconst_history_dependent"] = stats.get("pconst_history_dependent", 0) + 1
+                if stats["pconst_history_dependent"] > 4:
+                    continue
+                prefix = ops[:b["step"] + 1]
+                fails = pconst_fails(tool, src, lab)
+                small = ddmin(prefix, True, fails) if fails(prefix) else prefix
+                before = [c12ovr.op_label(o) for o in small[:-1]]
+                ctx.violation("%s gives different output for %s when %s ran before it on the same (unaltered) module%s"
+                              % (c12ovr.op_text(small[-1]), name, [c12ovr.op_text(o) for o in small[:-1]],
+                                 "; processed clone differs at %s" % b["sites"][:4] if b.get("sites") else ""),
+                              files={"job.json": json.dumps({"id": 0, "src": src, "data": {"ops": small, "repeat": 2, "heal": True}}),
+                                     "mode.txt": "pconst", "program.wgsl": src},
+                              key="pconst-order:%s-after-%s" % (lab, "+".join(sorted(set(before))) or "-"))
+    stats["pconst_programs"] = len(oprogs)
+    stats["pconst_nontrivial"] = len(nontrivial)
+    stats["pconst_ok_calls_by_operation"] = dict(sorted(labels_ok.items()))
+
+
 RACE_HDR = re.compile(r"^(Write|Read|Previous write|Previous read|Atomic write|Previous atomic write|Atomic read|Previous atomic read) at 0x[0-9a-f]+ by (?:main )?goroutine", re.M)
 BACKEND_FRAME = re.compile(r"github\.com/gogpu/naga(?:/(dxil|hlsl|msl|glsl|spirv|wgsl|ir))?(?:/[\w/]+)?\.(\(?\*?\w+\)?\.?\w*)\(\)")
 
@@ -486,6 +637,21 @@ def replay(ctx, tools, racetool):
     if "DATA RACE" in se:
         print(se[:6000])
     failing = bool(res) and (res.get("bad") or res.get("unstable") or res.get("mutated") or res.get("lower_unstable")) or "DATA RACE" in se
+    if mode == "pconst" and res:
+        # module mutations that are recorded findings occur in almost every history of a program with nested blocks:
+        # the replay fails only on something else
+        known = {k.get("match") for k in ctx._known if k.get("status") == "open"}
+        other = []
+        for b in res.get("bad") or []:
+            if b["kind"] == "module-mutated":
+                keys = ["module-mutated:%s:%s" % (b.get("label"), c) for c in b.get("classes") or ["?"]]
+                if all(k in known for k in keys):
+                    continue
+            elif b["kind"] == "output-differs" and not b.get("module_intact_before", True):
+                continue
+            other.append(b)
+        failing = bool(other)
+        print("replay pconst: %d entries besides recorded module mutations" % len(other))
     if failing:
         ctx.violation("replayed input still fails", files={"result.json": json.dumps(res, indent=1)}, key="replay")
 
@@ -547,13 +713,14 @@ def run(ctx):
         except Exception as e:  # anchors moved, allowlist malformed, extractor failure
             gen_error.append(str(e))
             return []
-    extra = ["State/GenObligations.v", "State/Instance.v", "State/Reset.v", "State/History.v", "State/Schedule.v", "State/MapOrder.v"]
+    extra = ["State/GenObligations.v", "State/Instance.v", "State/Reset.v", "State/History.v", "State/Schedule.v", "State/MapOrder.v",
+             "State/CloneFrame.v", "State/CloneObligations.v"]
     for attempt in range(4):
         ok, failed, log = vcheck.proof_step(ctx, "Props/C12.v", MODEL_FILES, gen_writer=writer, extra_obligation_files=extra)
         # several people share coq/: a temporary .v of somebody else that vanished between coq_makefile and make
         # ("No rule to make target 'x.v'") is not a fact about this property: rebuild
         foreign = re.findall(r"No rule to make target '([^']+)'", log or "")
-        if ok or not foreign or any(f.startswith(("State/", "Props/C12", "Gen/BackendState", "Gen/MapWalks")) for f in foreign):
+        if ok or not foreign or any(f.startswith(("State/", "Props/C12", "Gen/BackendState", "Gen/MapWalks", "Gen/CloneRegions")) for f in foreign):
             break
         time.sleep(3)
         ctx.cov["obligations"] = 0
@@ -565,10 +732,14 @@ def run(ctx):
         "its syntactic notions: field re-initialisation (assign/clear/truncate/delegate, unconditional, in Reset or the prologue of Compile), "
         "map-walk classes a/b/c, read-only function approximation, writes to ir-typed shared storage, written package-level variables; aliasing is not tracked",
         "reviewed allowlists state/immutable_fields.txt, state/mapwalk_allowlist.txt, state/irwrite_allowlist.txt, state/global_allowlist.txt (human justification per entry)",
+        "state/clone_writes.txt: the regions of the module written by override resolution after cloning (msl applyPipelineConstants, ir.ProcessOverrides) are a "
+        "REVIEWED list; only the regions the clone functions re-allocate are regenerated (lib/c12gen.py clone_regions from goextract assigns: make / append(T(nil),..) / &localCopy)",
         "monitors: harness/cmd/histdrive (reflection deep digest of *ir.Module incl. unexported fields; sha256 of outputs), Go race detector (go build -race), Go runtime map-order randomisation as the source of enumeration orders",
         "interleaving model of State/Schedule.v = sequential consistency, which Go guarantees only for data-race-free executions (observed by the race detector, not proved)",
     ]
     ctx.assumptions = [
+        "the clone model of State/CloneFrame.v treats a storage region (backing array, map, pointee) as atomic and named by its path with indices erased; "
+        "aliasing between differently named regions is not modelled",
         "PARTIAL: theorems are conditional on hypotheses tied to the Go code by regenerated syntactic obligations and by run-time monitors; they are not proved of the Go code",
         "the compile body of spirv.Backend is abstract (any function that leaves configuration fields alone); scratch storage listed in state/immutable_fields.txt is unobservable",
         "a sort comparator used after collecting map keys is a total order that is antisymmetric on the collected elements (reviewed, not extracted)",
@@ -611,7 +782,8 @@ def run(ctx):
     boost = 3 if (broken or r_named) else 1
     progs = programs()
     stats = {"histories": 0, "histories_nontrivial": 0, "history_compiles": 0, "version_leak_hits": 0, "perms": 0, "perms_nontrivial": 0,
-             "perm_calls": 0, "rerun_units": 0, "rerun_ok_units": 0, "concurrent_units": 0, "concurrent": {}}
+             "perm_calls": 0, "rerun_units": 0, "rerun_ok_units": 0, "concurrent_units": 0, "concurrent": {},
+             "pconst_histories": 0, "pconst_calls": 0, "pconst_module_mutations": {}}
     nviol0 = len(ctx.violations)
     mut1 = monitor_reruns(ctx, tools["histdrive"], progs, processes=5, repeat=ctx.scale(2, 25) * boost, stats=stats)
     lap("reruns")
@@ -622,17 +794,25 @@ def run(ctx):
     mut2 = monitor_perms(ctx, tools["histdrive"], progs, ctx.scale(1, 8) * boost, all5, stats)
     mutated_dxil = set(mut1.get("dxil", set())) | set(mut2.get("dxil", set()))
     lap("permutations")
+    oprogs = pconst_programs(ctx, progs)
+    monitor_pconst(ctx, tools["histdrive"], oprogs, ctx.scale(3, 12) * boost, ctx.scale(12, 30), stats)
+    lap("pipeline constants")
     monitor_concurrent(ctx, racetool, progs, mutated_dxil, rounds=ctx.scale(1, 8), n=16, stats=stats)
     lap("concurrent -race")
     ctx.cov["monitors"] = stats
     ctx.cov["programs"] = len(progs)
-    ctx.cov["evaluations"] = stats["history_compiles"] * 2 + stats["perm_calls"] * 2 + stats["rerun_units"] * 5 + stats["concurrent_units"] * 2
-    ctx.cov["distinct_nontrivial"] = stats["histories_nontrivial"] + stats["perms_nontrivial"] + stats["rerun_ok_units"]
-    ctx.cov["traces_validated_against_impl"] = stats["histories"] + stats["perms"] + len(stats["concurrent"])
+    ctx.cov["evaluations"] = (stats["history_compiles"] * 2 + stats["perm_calls"] * 2 + stats["rerun_units"] * 5 + stats["concurrent_units"] * 2 +
+                              stats["pconst_calls"] * 2)
+    ctx.cov["distinct_nontrivial"] = stats["histories_nontrivial"] + stats["perms_nontrivial"] + stats["rerun_ok_units"] + stats.get("pconst_nontrivial", 0)
+    ctx.cov["traces_validated_against_impl"] = stats["histories"] + stats["perms"] + len(stats["concurrent"]) + stats["pconst_histories"]
     ctx.cov["rule"] = ("cases: (i) random histories of Compile/Reset on one reused spirv.Backend over corpus+stress programs (distinct by program sequence and "
                        "debug flag; non-trivial = at least two different programs compiled), random permutations of {spv,spvd,hlsl,msl,glsl,dxil} and all 24 orders "
                        "of {spv,hlsl,msl,glsl} on one module (non-trivial = at least two back ends succeeded), (iii) program x target compiled in 5 fresh processes "
-                       "x in-process repetitions (non-trivial = the target produced output, not an error), (iv) concurrent units = program x target per round. "
+                       "x in-process repetitions (non-trivial = the target produced output, not an error), (iv) concurrent units = program x target per round, "
+                       "(v) on programs with override declarations (corpus, state/c12_stress/ovr_*, generated by lib/c12ovr.py): one systematic and several random "
+                       "histories of {msl/glsl Compile with PipelineConstants (maps by name, by id, partial, empty, unmatched, NaN), "
+                       "CloneModuleForOverrides+ProcessOverrides followed by back ends, plain back ends} on one module, run in two sets of fresh processes "
+                       "(non-trivial = at least two different constant-taking operations produced output). "
                        "evaluations = back-end invocations whose output was compared")
     if broken and len(ctx.violations) == nviol0 and not r_named:
         ctx.violation(broken + "\n(no failing history / permutation / schedule was found by the monitors)", found_input=False, broken=broken)
